@@ -36,6 +36,9 @@ type RenderCase struct {
 	// Earlier: positions the same error value pointed at (and was rendered for) before it was
 	// moved to Pos with SetIndex
 	Earlier []int `json:"earlier_positions,omitempty"`
+	// EarlierFile: the file the error value belonged to (and was rendered for, at the Earlier
+	// positions) before SetFile handed it Content
+	EarlierFile string `json:"earlier_file,omitempty"`
 }
 
 type ParseCase struct {
@@ -73,13 +76,16 @@ func init() {
 // ---------------------------------------------------------------------------------------
 // (b) rendering
 
-func render(content []byte, pos int, earlier ...int) (line uint, text, errText string, p any) {
+func render(content []byte, pos int, earlierFile string, earlier ...int) (line uint, text, errText string, p any) {
 	defer func() {
 		if r := recover(); r != nil {
 			p = r
 		}
 	}()
 	e := liberrors.NewDocumentError(fs.NewFile("file", content), liberrors.Format(liberrors.ErrGeneric, "msg"))
+	if earlierFile != "" {
+		e = liberrors.NewDocumentError(fs.NewFile("earlier", []byte(earlierFile)), liberrors.Format(liberrors.ErrGeneric, "msg"))
+	}
 	for _, q := range earlier {
 		func() {
 			defer func() { _ = recover() }() // judged as its own case
@@ -88,6 +94,9 @@ func render(content []byte, pos int, earlier ...int) (line uint, text, errText s
 			_ = e.SourceSubString()
 			_ = e.Error()
 		}()
+	}
+	if earlierFile != "" {
+		e.SetFile(fs.NewFile("file", content))
 	}
 	e.SetIndex(libbytes.Index(pos))
 	line = e.Line()
@@ -98,7 +107,7 @@ func render(content []byte, pos int, earlier ...int) (line uint, text, errText s
 
 func checkRender(t run.TB, c RenderCase) (judged bool) {
 	b := []byte(c.Content)
-	line, text, errText, p := render(b, c.Pos, c.Earlier...)
+	line, text, errText, p := render(b, c.Pos, c.EarlierFile, c.Earlier...)
 	if p != nil {
 		run.Fail(t, chkRender, c, "rendering panicked: %v", p)
 	}
@@ -243,6 +252,22 @@ func TestRenderRandom(t *testing.T) {
 		checkRender(t, c2)
 		run.Eval(chkRender, false)
 		run.Label("re-pointed-error-value")
+		// the same error value belonged to another file first (longer or shorter, with line ends of
+		// its own), was rendered there, then got this file with SetFile
+		c3 := c
+		onl := rapid.SampledFrom([]string{"\n", "\r\n", "\r"}).Draw(t, "earlierNL")
+		var eb strings.Builder
+		for i, n := 0, rapid.IntRange(1, 6).Draw(t, "earlierLines"); i < n; i++ {
+			eb.WriteString(strings.Repeat("x", rapid.IntRange(0, 40).Draw(t, "earlierLen")))
+			eb.WriteString(onl)
+		}
+		c3.EarlierFile = eb.String()
+		for i, n := 0, rapid.IntRange(1, 2).Draw(t, "nearlier3"); i < n; i++ {
+			c3.Earlier = append(c3.Earlier, rapid.IntRange(0, len(c3.EarlierFile)-1).Draw(t, "earlier3"))
+		}
+		checkRender(t, c3)
+		run.Eval(chkRender, false)
+		run.Label("error-value-moved-to-another-file")
 	})
 }
 
